@@ -208,6 +208,54 @@ pub fn analyse(b: &Built) -> BTreeSet<Fault> {
     faults
 }
 
+/// growth of the registration cost on layered acyclic graphs (every template of a layer includes / every second one extends
+/// the templates of the next layer): the number of paths doubles with every layer while the number of edges grows linearly.
+/// A walk that forgets what it has visited is exponential here. Judged by growth, not by a wall-clock limit: only when the
+/// largest size takes seconds AND costs more than 64 times a size with 8 layers less.
+pub fn check_layered_growth(l: &mut Local) -> Check {
+    let build = |layers: usize| -> Vec<(String, String)> {
+        let mut v = vec![];
+        for i in 0..layers {
+            for j in 0..2 {
+                let body = if i + 1 < layers { format!("{{% include \"l{}_0\" %}}{{% include \"l{}_1\" %}}{{% block b %}}{{% include \"l{}_{}\" %}}{{% endblock %}}", i + 1, i + 1, i + 1, j) } else { "leaf".to_string() };
+                v.push((format!("l{i}_{j}"), body));
+            }
+        }
+        v
+    };
+    let time = |layers: usize| -> Result<f64, String> {
+        let set = build(layers);
+        let t0 = std::time::Instant::now();
+        let r = guard(|| tera::Tera::new().add_raw_templates(set).map_err(|e| e.to_string()))?;
+        r.map_err(|e| format!("an acyclic layered set of {layers} layers was rejected: {e}"))?;
+        Ok(t0.elapsed().as_secs_f64())
+    };
+    let mut times = vec![];
+    for layers in [6usize, 10, 14, 18, 22, 26] {
+        let t = match time(layers) {
+            Ok(t) => t,
+            Err(why) => return Err(Fail::new("C11/valid-graph-rejected", why, json!({"kind": "layered", "layers": layers}))),
+        };
+        l.eval();
+        times.push((layers, t));
+        // stop early once the trend is unmistakable (the next size would take 16 times longer)
+        if t > 2.0 {
+            break;
+        }
+    }
+    l.label("layered-growth");
+    l.nontrivial(hash_str("layered-growth"));
+    if let Some(&(big, tb)) = times.last() {
+        if tb > 2.0 {
+            let base = times.iter().find(|(n, _)| *n + 8 == big).map(|x| x.1).unwrap_or(0.0).max(0.0005);
+            if tb / base > 64.0 {
+                return Err(Fail::new("C11/exponential-registration", format!("registering an acyclic layered include graph: seconds per number of layers {:?}: the cost explodes with depth although the graph grows linearly (a cycle walk that does not remember visited templates)", times), json!({"kind": "layered", "times": times})));
+            }
+        }
+    }
+    Ok(())
+}
+
 /// the same graph reached step by step: every template is first registered as a stub without edges, then each is
 /// re-added with its real source in a permuted order. Whatever the instance holds after a successful add must be a
 /// graph the analysis accepts (no cycle closed by a re-add, no dangling edge), and must render finitely.
@@ -330,6 +378,11 @@ pub fn check_graph(g: &GraphSpec, l: &mut Local) -> Check {
         }
         (Ok(()), true) => {
             l.label("graph:accepted");
+            // fallback prefixes are part of how edges resolve: documented as "needs to be called before adding templates,
+            // it will error otherwise" — changing them under a loaded set would leave edges dangling
+            if let Ok(Ok(())) = guard(|| t.clone().set_fallback_prefixes(vec!["zz-other/".to_string()])) {
+                return Err(Fail::new("C11/prefixes-changed-after-load", format!("set_fallback_prefixes succeeded on an instance that already holds {} templates (prefixes {:?})", b.sources.len(), b.prefixes), case()));
+            }
             // every template renders (terminates) with text or an error value
             for (n, _) in &b.sources {
                 match guard(|| t.render(n, &tera::Context::new()).map_err(|e| e.to_string())) {
@@ -381,6 +434,14 @@ pub fn worker(w: &WorkerArgs) -> i32 {
             w.trace_case(|| { let b = build(g); json!({"kind": "incremental_graph", "templates": b.sources, "prefixes": b.prefixes}) });
             check_incremental(g, *order, l)
         }),
+        "layered" => {
+            let mut l = Local::new();
+            let r = check_layered_growth(&mut l);
+            rep.merge(l);
+            if let Err(f) = r {
+                rep.fail(f);
+            }
+        }
         "fixed" => {
             let cases: Vec<_> = fixed_cases().into_iter().enumerate().filter(|(i, _)| *i as u64 % w.nshards.max(1) == w.shard).map(|(_, c)| c).collect();
             run_enum(&rep, &fam, &cases, |(label, sources, prefixes, expect_ok), l| {
@@ -504,6 +565,8 @@ pub fn run(rep: &Report) {
     };
     run_in_workers(rep, "fixed", 16, 300, on_abnormal("fixed"));
     run_in_workers(rep, "incremental_graphs", 16, 120, on_abnormal("incremental_graphs"));
+    run_in_workers(rep, "layered", 1, 600, on_abnormal("layered"));
+    rep.floor("layered-growth", 1);
     rep.floor("incremental:faulty-step-refused", 20_000);
     rep.floor("incremental:step-accepted", 200_000);
     run_in_workers(rep, "random_graphs", 16, 120, on_abnormal("random_graphs"));
@@ -515,6 +578,9 @@ pub fn run(rep: &Report) {
 
 pub fn replay(_rep: &Report, case: &serde_json::Value) -> Option<Check> {
     let mut l = Local::new();
+    if case.get("kind").and_then(|x| x.as_str()) == Some("layered") {
+        return Some(check_layered_growth(&mut l));
+    }
     let sources: Vec<(String, String)> = case.get("templates")?.as_array()?.iter().map(|p| Some((p.get(0)?.as_str()?.to_string(), p.get(1)?.as_str()?.to_string()))).collect::<Option<_>>()?;
     let prefixes: Vec<String> = case.get("prefixes").and_then(|x| x.as_array()).map(|a| a.iter().filter_map(|x| x.as_str().map(|s| s.to_string())).collect()).unwrap_or_default();
     match case.get("kind")?.as_str()? {
